@@ -9,6 +9,8 @@ library generate its class constraints, and record
   decomposition_dict only.
 
 Nothing is evaluated here: spec/MembersTrace.tla instantiates the leaves with real members of the class."""
+import contextlib
+import io
 import re
 import warnings
 from fractions import Fraction
@@ -69,7 +71,7 @@ def run(item):
     import PEPit.operators as PO
     warnings.simplefilter("ignore")
     cls_name, P, hist = item["cls"], item["P"], item["h"]
-    out = dict(cls=cls_name, P=[list(p) for p in P], hist=hist_str(hist), h=hist, d=0, exc="")
+    out = dict(ci=item.get("ci", 0), cls=cls_name, P=[list(p) for p in P], hist=hist_str(hist), h=hist, d=0, exc="")
     problem = PEP()
     cls = getattr(PF, cls_name, None) or getattr(PO, cls_name)
     roles = {}        # leaf point counter -> (role, point the role refers to, block index)
@@ -86,7 +88,8 @@ def run(item):
         vm = P[0][0]
     else:
         kwargs = {n: pval(p) for n, p in zip(PARAMS[cls_name], P)}
-    f = problem.declare_function(cls, **kwargs)
+    with contextlib.redirect_stdout(io.StringIO()):       # (the constructors print advice for boundary parameters)
+        f = problem.declare_function(cls, **kwargs)
     fid = f.get_name() or "Function_{}".format(f.counter)
 
     def is_new_leaf(p):
